@@ -32,6 +32,7 @@ REQUIRED = {'programs': 2000, 'agree.value': 1500, 'agree.error': 20, 'construct
             'construct.with': 50, 'construct.unpack': 50, 'construct.def': 100, 'construct.member-projection': 100,
             'nest.lambda-in-lambda': 50, 'nest.let-in-lambda': 50, 'nest.lambda-in-let': 50, 'nest.shadowing': 100,
             'nest.closure-called-under-shadowing': 20, 'nest.unbound-variable': 50, 'pattern.*': 10,
+            'construct.elvis': 100, 'nest.elvis-null-receiver': 30, 'nest.elvis-falsy-receiver': 20,
             'reach.Lambda.convert': 1000, 'reach.get_data': 1000, 'reach.let': 100, 'reach.def_': 50,
             'reach.send_context': 100, 'reach.collection_attribution': 50}
 
@@ -116,6 +117,35 @@ class G:
         finally:
             self.lambda_depth -= 1
 
+    def elvis(self, node, t, env, d):
+        """sometimes spell a method call / member access with `?.`: skipped (null) only for a null
+        receiver; an empty list, empty dict or zero is an ordinary receiver"""
+        rng = self.rng
+        if rng.random() >= 0.2:
+            return node
+        node.elvis = True
+        self.note('construct.elvis')
+        k = rng.random()
+        is_member = isinstance(node, me.Member)
+        if k < 0.35:
+            self.note('nest.elvis-null-receiver')
+            null = me.Var('$' + rng.choice(['q', 'qq']))
+            if is_member:
+                node.a = null
+            else:
+                node.recv = null
+            return me.Coalesce([node, self.gen(t, env, d - 1)])
+        if k < 0.6:
+            self.note('nest.elvis-falsy-receiver')
+            if is_member:
+                node.a = me.ListE([])                  # [].a maps over no elements
+                return me.Coalesce([me.Call('first', [me.Lit(None)], recv=me.Call('toList', [], recv=node)), self.gen(t, env, d - 1)])
+            if node.name in ('get', 'set'):
+                node.recv = me.MapE([])
+            else:
+                node.recv = me.ListE([])
+        return node
+
     def gen_I(self, env, d):
         rng = self.rng
         r = rng.random()
@@ -124,13 +154,13 @@ class G:
         if r < 0.4:
             return me.Bin(rng.choice(['+', '*', '-']), self.gen('I', env, d - 1), self.gen('I', env, d - 1))
         if r < 0.5:
-            return me.Call('len', [], recv=self.gen('L', env, d - 1))
+            return self.elvis(me.Call('len', [], recv=self.gen('L', env, d - 1)), 'I', env, d)
         if r < 0.62:
-            return me.Call('sum', [me.Lit(0)], recv=self.gen('L', env, d - 1))
+            return self.elvis(me.Call('sum', [me.Lit(0)], recv=self.gen('L', env, d - 1)), 'I', env, d)
         if r < 0.7:
-            return me.Call('first', [me.Lit(0)], recv=self.gen('L', env, d - 1))
+            return self.elvis(me.Call('first', [me.Lit(0)], recv=self.gen('L', env, d - 1)), 'I', env, d)
         if r < 0.78:
-            return me.Call('get', [me.Lit(rng.choice(['a', 'b', 'zz'])), me.Lit(0)], recv=self.gen('D', env, d - 1))
+            return self.elvis(me.Call('get', [me.Lit(rng.choice(['a', 'b', 'zz'])), me.Lit(0)], recv=self.gen('D', env, d - 1)), 'I', env, d)
         if r < 0.83 and self.funcs:
             f = rng.choice(sorted(self.funcs))
             if self.shadowed_since_def.get(f):
@@ -142,7 +172,7 @@ class G:
             return me.Coalesce([me.Var('$' + rng.choice(['q', 'qq'] + [v for v in VARS if v not in env])), self.gen('I', env, d - 1)])
         if r < 0.95:
             return me.Index(self.gen('L', env, d - 1), me.Lit(rng.choice([0, 1, -1])))      # may raise IndexError
-        return me.Member(self.gen('D', env, d - 1), rng.choice(['a', 'b']))                 # may raise KeyError
+        return self.elvis(me.Member(self.gen('D', env, d - 1), rng.choice(['a', 'b'])), 'I', env, d)    # may raise KeyError
 
     def gen_B(self, env, d):
         rng = self.rng
@@ -156,7 +186,7 @@ class G:
         if r < 0.75:
             return me.Not(self.gen('B', env, d - 1))
         if r < 0.9:
-            return me.Call(rng.choice(['any', 'all']), [self.lam('B', env, d, 'I')], recv=self.gen('L', env, d - 1))
+            return self.elvis(me.Call(rng.choice(['any', 'all']), [self.lam('B', env, d, 'I')], recv=self.gen('L', env, d - 1)), 'B', env, d)
         return me.Bin('=', self.gen('L', env, d - 1), self.gen('L', env, d - 1))
 
     def gen_L(self, env, d):
@@ -175,9 +205,9 @@ class G:
         if r < 0.3:
             return me.ListE([self.gen('I', env, d - 1) for _ in range(rng.choice((1, 2, 3)))])
         if r < 0.5:
-            return me.Call('select', [self.lam('I', env, d, 'I')], recv=self.gen('L', env, d - 1))
+            return self.elvis(me.Call('select', [self.lam('I', env, d, 'I')], recv=self.gen('L', env, d - 1)), 'L', env, d)
         if r < 0.65:
-            return me.Call('where', [self.lam('B', env, d, 'I')], recv=self.gen('L', env, d - 1))
+            return self.elvis(me.Call('where', [self.lam('B', env, d, 'I')], recv=self.gen('L', env, d - 1)), 'L', env, d)
         if r < 0.72:
             return me.Call(rng.choice(['take', 'skip']), [me.Lit(rng.choice([0, 1, 2]))], recv=self.gen('L', env, d - 1))
         if r < 0.8:
